@@ -818,6 +818,11 @@ class FillNode(BaseNode):
             if "forloop" in layer:
                 layer = layer.copy()
                 layer["forloop"] = layer["forloop"].copy()
+                # Copy also the state of the (potentially nested) parent loops
+                curr_forloop = layer["forloop"]
+                while curr_forloop.get("parentloop"):
+                    curr_forloop["parentloop"] = curr_forloop["parentloop"].copy()
+                    curr_forloop = curr_forloop["parentloop"]
                 data.extra_context.update(layer)
 
         collected_fills.append(data)
